@@ -103,7 +103,31 @@ pub fn child(args: &[String]) -> i32 {
         let l = cs::list(ic.transport(1), Some(*id), "/", &[]);
         op(&format!("restore b{id:04}"));
         let r = cs::restore(ic.transport(1), Some(*id), &out.join(format!("b{id:04}")), None, &[], false);
-        per_band.insert(id.to_string(), json!({"list": summarise(&l), "listed": l.value().map(|v| v.len()), "restore": summarise(&r)}));
+        // the same version restricted to a subtree: up to four directories directly below the
+        // root that the (possibly damaged) whole listing still shows something of
+        let mut subs = Vec::new();
+        let mut tops: Vec<String> = Vec::new();
+        for e in l.value().map(|v| v.as_slice()).unwrap_or(&[]) {
+            let mut parts = e.apath[1..].split('/');
+            if let (Some(first), Some(_)) = (parts.next(), parts.next()) {
+                let top = format!("/{first}");
+                if !tops.contains(&top) {
+                    tops.push(top);
+                }
+            }
+        }
+        for (k, top) in tops.iter().take(4).enumerate() {
+            op(&format!("list b{id:04} subtree"));
+            let sl = cs::list(ic.transport(1), Some(*id), top, &[]);
+            let mut one = json!({"subtree": top, "list": summarise(&sl), "listed": sl.value().map(|v| v.iter().map(|e| e.apath.clone()).collect::<Vec<_>>())});
+            if k == 0 {
+                op(&format!("restore b{id:04} subtree"));
+                let sr = cs::restore(ic.transport(1), Some(*id), &out.join(format!("sub-b{id:04}")), Some(top), &[], false);
+                one["restore"] = summarise(&sr);
+            }
+            subs.push(one);
+        }
+        per_band.insert(id.to_string(), json!({"list": summarise(&l), "listed": l.value().map(|v| v.len()), "restore": summarise(&r), "subtrees": subs}));
     }
     report.insert("bands".into(), Value::Object(per_band));
     // 3. validate
@@ -393,6 +417,70 @@ fn judge(run: &Run, s: &Subject, raw_pre: &fmt06::Raw, base_errors: &BTreeMap<u3
                 replay.clone(),
             );
             return;
+        }
+        // the same rules for the version restricted to a subtree (listing; restore of the first)
+        let base = base_errors.get(b).cloned().unwrap_or_default();
+        let lost_must_be_said = unreadable
+            && !vanished_tail_hunk
+            && (matches!(path_class(&d.relpath), "hunk") || (path_class(&d.relpath) == "BANDHEAD" && d.action != Action::Delete));
+        for sub in br["subtrees"].as_array().cloned().unwrap_or_default() {
+            let top = sub["subtree"].as_str().unwrap_or("/").to_string();
+            let Some(listed) = sub["listed"].as_array() else {
+                run.violation(format!("subtree-of-open-version-does-not-list@{dc}"), format!("{}: b{b:04} subtree {top}: {}", d.desc(), sub["list"]), replay.clone());
+                return;
+            };
+            let listed: std::collections::BTreeSet<&str> = listed.iter().filter_map(|v| v.as_str()).collect();
+            let new_error = |which: &str| {
+                sub[which]["error_text"].as_array().map(|a| a.iter().filter_map(|v| v.as_str()).any(|t| !base.contains(&mask_out(t, out)))).unwrap_or(false)
+            };
+            let restored = if sub.get("restore").is_some() { Some(tree::snapshot(&out.join(format!("sub-b{b:04}"))).unwrap_or_default()) } else { None };
+            run.count("subtree_listings_judged", 1);
+            for p in deps.keys().filter(|p| tree::is_under(p, &top)) {
+                let touched = deps[p].contains(&d.relpath);
+                if !listed.contains(p.as_str()) {
+                    if !touched {
+                        run.violation(
+                            format!("untouched-entry-missing-from-subtree-listing@{dc}"),
+                            format!("{}: b{b:04} listed under {top} without {p}", d.desc()),
+                            replay.clone(),
+                        );
+                        return;
+                    }
+                    if lost_must_be_said {
+                        run.count("touched_entries_judged_in_subtree_listings", 1);
+                        if !new_error("list") {
+                            run.violation(
+                                format!("damaged-entry-silently-dropped-from-subtree-listing@{dc}"),
+                                format!("{}: listing b{b:04} under {top} leaves out {p} and reports no error ({})", d.desc(), sub["list"]),
+                                replay.clone(),
+                            );
+                            return;
+                        }
+                    }
+                }
+                if let Some(snap) = &restored {
+                    let orphan = {
+                        let mut a: &str = p;
+                        let mut o = false;
+                        while a != "/" {
+                            a = tree::parent_of(a);
+                            o |= !deps.contains_key(a);
+                        }
+                        o
+                    };
+                    if touched && !orphan && !snap.contains_key(p) && (lost_must_be_said || (unreadable && path_class(&d.relpath) == "block")) {
+                        run.count("touched_entries_judged_in_subtree_restores", 1);
+                        if !new_error("restore") {
+                            run.violation(
+                                format!("damaged-entry-silently-dropped-from-subtree-restore@{dc}"),
+                                format!("{}: restoring b{b:04} under {top} leaves out {p} and reports no error ({})", d.desc(), sub["restore"]),
+                                replay.clone(),
+                            );
+                            return;
+                        }
+                    }
+                }
+            }
         }
     }
     // 3. a new backup after a deleted or emptied file
